@@ -437,6 +437,7 @@ def c03(prop, tier, seed):
             cover["layout:" + m["layout"]] = cover.get("layout:" + m["layout"], 0) + 1
             if m["xml_first"]:
                 cover["xml-before-sections"] = cover.get("xml-before-sections", 0) + 1
+                cover["last-section-end:" + m.get("tail", "free")] = cover.get("last-section-end:" + m.get("tail", "free"), 0) + 1
             res.nums.setdefault("section_start_mod1020", set()).update(m["start_residues"])
             res.nums.setdefault("xml_start_mod1020", set()).add(m["xml_start_residue"])
         res.cover.update(cover)
@@ -444,7 +445,7 @@ def c03(prop, tier, seed):
         res.samples = [{"file": os.path.basename(m["file"]), "layout": m["layout"], "packets": m["packets"], "packet_kinds": m["packet_kinds"], "lexical": m["lexical"]} for m in metas[:3]]
     finally:
         cleanup(wd)
-    rule = ("random scenes (1-3 point clouds with every type/width, images of all kinds, standalone blobs, wild strings) encoded by the independent Python encoder in an exotic legal layout (random/unequal/run-ahead splits of every attribute stream incl. empty streams and values straddling packets; index and ignored packets before/between/after data packets; trailing index packet with index offset; sections in shuffled order with no/small/page-edge/random padding; XML before or after the sections; "
+    rule = ("random scenes (1-3 point clouds with every type/width, images of all kinds, standalone blobs, wild strings) encoded by the independent Python encoder in an exotic legal layout (random/unequal/run-ahead splits of every attribute stream incl. empty streams and values straddling packets; index and ignored packets before/between/after data packets; trailing index packet with index offset; sections in shuffled order with no/small/page-edge/random padding; XML before or after the sections, and when the XML comes first the last section ending exactly on / 4 bytes before / 4 bytes after the end of the last page's payload; "
             "lexical variants: attribute order and quote style, CDATA vs escaped vs numeric character references vs mixed, empty-element tags, whitespace/indentation/comments between elements, XML declaration variants, trailing spaces, omitted optional type attributes, shuffled element order inside structures) and, as control, in a plain layout; the crate's reader dumps everything it reports and the dump is compared with the scene; non-trivial = file compared; distinct = distinct scenes x 2 layouts")
     extra = {"files_compared": res.stats.get("files_compared", 0), "layout_features_exercised": {k: v for k, v in sorted(cover.items())}}
     assumptions = ["layouts are restricted to what the format defines (continuous byte stream per attribute, packet length incl. header and padding, reserved bytes zero) and the encoder is calibrated: e57ref.decode must accept and reproduce every file it emits (./check --setup)", "lexical variants preserve the infoset; whitespace inside numeric leaves, comments inside leaf values and DTDs are excluded"]
